@@ -530,4 +530,19 @@ theorem Inv_ringStep {now : Nat} {fs : Files} {r : RingSt} (h : Inv now r) (op :
               show (exec fs x.apply).2.1 = ECANCELED
               rw [this]; rfl
 
+/-! ### the successful `next`, named -/
+
+def doneOf (x : Sched) (res : Int) (now : Nat) : Done := ⟨x.sid, x.ud, res, now, x.at_, x.lat, x.canc, x.apply⟩
+
+def afterPop (r1 : RingSt) (ready' : List (List Sched)) (k : Nat) (d : Done) : RingSt :=
+  { r1 with ready := ready', visible := some k, drained := r1.drained ++ [d] }
+
+theorem ringStep_next_some {now : Nat} {fs : Files} {r : RingSt} {pick k : Nat} {x : Sched}
+    {ready' : List (List Sched)} (hv : r.visible = some (k + 1))
+    (hpop : popPick (promote r now).ready pick = some (x, ready')) :
+    ringStep now fs r (.next pick) =
+      (afterPop (promote r now) ready' k (doneOf x (exec fs x.apply).2.1 now), (exec fs x.apply).1,
+        .cqe x.ud (exec fs x.apply).2.1 (exec fs x.apply).2.2) := by
+  simp [ringStep, hv, hpop, afterPop, doneOf]
+
 end TV.Ring
